@@ -25,7 +25,11 @@ use std::{
 };
 
 #[cfg(emit_rs_emit_verif)]
-use std::{collections::HashMap, future::Future, pin::Pin, sync::Arc, thread, time::Duration};
+use std::{future::Future, pin::Pin, sync::Arc, thread, time::Duration};
+
+// Under simulation the iteration order of maps (and with it the bytes of encoded requests) must not vary between processes
+#[cfg(emit_rs_emit_verif)]
+use std::collections::BTreeMap as HashMap;
 
 #[cfg(emit_rs_emit_verif)]
 use emit_batcher::verif::{tokio_shim as tokio, Instant};
